@@ -829,7 +829,7 @@ Lemma id_resize_spec m fail : MInv m ->
     id_count m' = id_count m /\ same_range m m' /\
     ((rv = 0%N /\ id_count m' < id_cap m') \/ (rv = id_ENOMEM /\ fail = true)).
 Proof.
-  intros HI. unfold id_resize.
+  intros HI. unfold id_resize, id_new_cap, id_thresholds.
   destruct ((id_load m <? id_max_load m) && (id_min_load m <=? id_load m)) eqn:Ethr.
   { exists 0%N, m. split; [reflexivity|]. split; [assumption|]. split; [intros ? ?; tauto|]. split; [reflexivity|].
     split; [repeat split|]. left. split; [reflexivity|].
@@ -1289,7 +1289,7 @@ Lemma set_refines fixed m k v f : Inv fixed m ->
                 id_spec_rel (abs m) (IoSet k v f) (OutRv rv) (abs m').
 Proof.
   intros [HI HR]. destruct (id_set_spec m k v f HI) as (rv & m' & R & HI' & RS & [[-> SP]|(-> & -> & AS & CS)]);
-    exists rv, m'; subst; (split; [exact R|]); (split; [split; [exact HI'|exact (RInv_range _ _ _ RS HR)]|]).
+    eexists _, _; (split; [exact R|]); (split; [split; [exact HI'|exact (RInv_range _ _ _ RS HR)]|]).
   - left. cbn [id_spec_step fst snd]. split; [reflexivity|].
     destruct RS as (A & B & C & D).
     destruct (equiv_from_pairs (abs_list (id_entries m')) (am_set (abs_list (id_entries m)) k v)) as [E1 E2].
@@ -1340,8 +1340,8 @@ Proof.
     rewrite (u64_add_plain (id_max_val m - id_min_val m) 1) by lia.
     assert (B: (rnd mod (id_max_val m - id_min_val m + 1) < id_max_val m - id_min_val m + 1)%N) by (apply N.mod_lt; lia).
     rewrite u64_add_plain by lia.
-    destruct (id_random m); cbn [set_dyn id_dyn_val id_min_val id_max_val id_random];
-      (split; [reflexivity|]); (split; [lia|]); repeat split.
+    destruct (id_random m) eqn:Er; cbn [set_dyn id_dyn_val id_min_val id_max_val id_random];
+      (split; [reflexivity|]); (split; [lia|]); repeat split; assumption.
   - apply N.eqb_neq in E. split; [reflexivity|]. split; [lia|]. repeat split.
 Qed.
 
@@ -1453,10 +1453,12 @@ Proof.
   destruct (negb ((if (lo =? 0)%N then 1%N else lo) <? (if (hi =? 0)%N then ID_DEFAULT_HI else hi))%N) eqn:E; [discriminate|].
   intros H. inversion H; subst m. apply negb_false_iff, N.ltb_lt in E.
   split; [|reflexivity]. split; [apply MInv_empty|].
-  unfold ID_DEFAULT_HI, U64 in *.
-  split; cbn [id_min_val id_max_val id_dyn_val]; destruct (lo =? 0)%N eqn:E1; destruct (hi =? 0)%N eqn:E2;
-    try apply N.eqb_eq in E1; try apply N.eqb_eq in E2; try apply N.eqb_neq in E1; try apply N.eqb_neq in E2;
-    try lia; auto; destruct Hf; auto; right; lia.
+  set (lo' := if (lo =? 0)%N then 1%N else lo) in *. set (hi' := if (hi =? 0)%N then ID_DEFAULT_HI else hi) in *.
+  assert (L1: (1 <= lo')%N) by (unfold lo'; destruct (lo =? 0)%N eqn:E1; [lia|apply N.eqb_neq in E1; lia]).
+  assert (L2: (hi' < U64)%N) by (unfold hi', ID_DEFAULT_HI, U64 in *; destruct (hi =? 0)%N; lia).
+  assert (L3: fixed = true \/ (hi' + 1 < U64)%N).
+  { destruct Hf as [->|Hf]; [now left|right]. unfold hi', ID_DEFAULT_HI, U64 in *. destruct (hi =? 0)%N; lia. }
+  split; cbn [id_min_val id_max_val id_dyn_val]; auto; lia.
 Qed.
 
 Theorem static_init_inv fixed lo hi rnd : (1 <= lo)%N -> (lo <= hi)%N -> (hi < U64)%N -> (fixed = true \/ hi + 1 < U64)%N ->
